@@ -13,6 +13,7 @@ def catalogue(K):
     return [
         dict(name="t", size=[0, K], fields=[f("id", t_int((0, 100)), "Unique"), f("a", t_int((0, 10))), f("b", t_opt(t_float((-5.0, 5.0)))), f("c", t_int((1, 1), (2, 2), (3, 3))),
                                             f("g", t_int((-3, 3))), f("k", t_int((0, 50)), "Unique")]),
+        dict(name="w", size=[0, 1], fields=[f("id", t_int((0, 100)), "PrimaryKey"), f("y", t_float((0.0, 1.0)))]),
         dict(name="u", size=[0, K], fields=[f("id", t_int((0, 100)), "PrimaryKey"), f("x", t_float((0.0, 10.0))), f("d", t_opt(t_int((-3, 3)))), f("a", t_int((5, 20))), f("k", t_int((0, 50)), "Unique")]),
     ]
 
@@ -59,6 +60,12 @@ FIXED = [
     "SELECT abs(g) AS v, -a AS w FROM t",
     "SELECT greatest(a, g) AS v, least(a, g) AS w FROM t",
     "SELECT a FROM t WHERE NOT (a > 3 OR g < 0)",
+    # a smaller table (declared size [0,1]) on either side of joins over keys that are unique on both sides
+    "SELECT t.a AS ta, w.y AS wy FROM t LEFT JOIN w ON t.id = w.id",
+    "SELECT t.a AS ta, w.y AS wy FROM w RIGHT JOIN t ON t.id = w.id",
+    "SELECT t.a AS ta, w.y AS wy FROM t FULL JOIN w ON t.id = w.id",
+    "SELECT t.a AS ta, w.y AS wy FROM t JOIN w ON t.id = w.id",
+    "SELECT u.x AS ux, w.y AS wy FROM w LEFT JOIN u ON u.id = w.id",
 ]
 
 
